@@ -244,6 +244,10 @@ impl<A: AApi> Sut for ASut<A> {
         let mut v = vec![];
         for x in &self.vals {
             v.push(Op::new("ins", &[self.ins_val(*x)]));
+            if Self::keyed() {
+                // a duplicate insert that carries a different payload
+                v.push(Op::new("ins", &[*x | (3i128 << 32)]));
+            }
             v.push(Op::new("rem", &[*x]));
             v.push(Op::new("take", &[*x]));
             v.push(Op::new("get", &[*x]));
@@ -277,7 +281,7 @@ impl<A: AApi> Sut for ASut<A> {
             _ => if fullish { 35 } else { 55 },
         };
         if r < ins_p {
-            Op::new("ins", &[self.ins_val(x)])
+            Op::new("ins", &[if Self::keyed() && rng.chance(1, 3) { x | (3i128 << 32) } else { self.ins_val(x) }])
         } else if r < 70 {
             Op::new("rem", &[x])
         } else if r < 80 {
